@@ -729,6 +729,52 @@ def r05_8(ctx, prog, crate):
             ctx.check(fed, "R05.8", [b.path, "count-feeds-the-counter"], "the count does not feed the counter's constructor", cnt[0].line())
 
 
+def r05_10(ctx, prog, crate):
+    """A per-input counter's per-iteration value is the sum over the sample's inputs divided by the sample size, taken in
+    the width of the sum: the value handed to AnyCounter::known for an input-counted kind is `narrow(total / widen(size))`
+    - the division happens before the narrowing cast (narrowing the 128-bit total first silently drops its high bits)."""
+    from lib.symexpr import Sym, show
+    n = 0
+    for b in prog.lib_bodies(crate):
+        if not b.path.startswith("benchmark::BenchContext::") or b.kind == "Closure":
+            continue
+        cs = [c for c in b.live_calls() if c.callee.endswith("AnyCounter::known") and b.loops_containing(c.bb)]
+        if not cs:
+            continue
+        ctx.saw(b)
+        S = Sym(b, keep_casts=True, site_args=True)
+        WIDTH = {"u8": 8, "u16": 16, "u32": 32, "u64": 64, "usize": 64, "u128": 128}
+
+        def find_div(e, depth=0):
+            if not isinstance(e, tuple) or depth > 12:
+                return None
+            if e and e[0] == "div":
+                return e
+            if e and e[0] == "call" and isinstance(e[1], str) and e[1].endswith(("checked_div", "div_euclid", "wrapping_div", "saturating_div")) and len(e[2]) == 2:
+                return ("div", e[2][0], e[2][1])
+            for x in (e if (e and isinstance(e[0], tuple)) else e[1:]):
+                if isinstance(x, tuple):
+                    r = find_div(x, depth + 1)
+                    if r is not None:
+                        return r
+            return None
+        for c in cs:
+            n += 1
+            e = S.op(c.args[1])
+            inner = find_div(e)
+            ok = inner is not None
+            why = "is not a quotient"
+            if ok:
+                num, den = inner[1], inner[2]
+                # the numerator is not a narrowed value; the denominator is (a widening of) the sample size
+                narrowed = num[0] == "cast" and WIDTH.get(num[1], 0) < 128
+                ok = not narrowed and "sample_size" in show(den)
+                why = "narrows the total before dividing" if narrowed else "does not divide by the sample size"
+            ctx.check(ok, "R05.10", [b.path, "sum-divided-before-narrowing"],
+                      "the per-iteration count stored for an input counter is `%s`: it %s" % (show(e), why), c.line())
+    ctx.anchor("R05.10", "per-iteration counts built from per-input totals", n, 1)
+
+
 def r05_9(ctx, prog, crate):
     """Per-sample counter values stay aligned with the samples: installing an input counter empties its own kind's list
     unconditionally (a left-over constant count would shift every per-sample value by one) and touches no other kind;
@@ -741,6 +787,7 @@ def r05_9(ctx, prog, crate):
 def run(ctx, prog, crate):
     r05_8(ctx, prog, crate)
     r05_9(ctx, prog, crate)
+    r05_10(ctx, prog, crate)
     r05_7(ctx, prog, crate)
     r05_6(ctx, prog, crate)
     r05_5(ctx, prog, crate)
